@@ -80,7 +80,7 @@ class SymClass:
             return Builtin(f"cs.{self.name}.sym", sym)
         if attr == "__name__":
             return self.name
-        raise PyRaise(ExcValue("AttributeError", (attr,)))
+        raise Unsupported(f"casadi.{self.name}.{attr} is not part of the model of casadi")
 
     def pyvc_call(self, interp, args, kwargs):
         x = _m(args[0])
